@@ -252,6 +252,17 @@ func genC04(g *prng.R) c04Case {
 			act["actor"] = accA
 		}
 		cs.Info["accept_verified"] = verified
+		if g.Chance(1, 8) {
+			// next to the Follow, another one embedded without an id (it
+			// cannot be the stored one), before or after it
+			anon := M{"type": "Follow", "actor": carol(), "object": R2 + "/users/someone"}
+			if g.Bool() {
+				act["object"] = A{anon, act["object"]}
+			} else {
+				act["object"] = A{act["object"], anon}
+			}
+			cs.Info["anonymous_follow_next_to_it"] = true
+		}
 		if g.Chance(1, 6) {
 			// another object by IRI, of a type the vocabularies do not
 			// define: the request fails or the Follow next to it counts
